@@ -2,6 +2,7 @@ package main
 
 import (
 	"fmt"
+	"go/token"
 	"go/types"
 	"strings"
 
@@ -261,4 +262,239 @@ func c12RspErrNonNil(r *Run) {
 		})
 	}
 	r.Floor("RspError literals", n, 10)
+}
+
+// ---- how a call hands values to the inputs of an unexported function ---------------------------
+//
+// A rule about an unexported function is a statement about the values its callers hand to it
+// ("the chain BuildLogLeaf was given reaches ExtraDataForChain"), not about the way its parameter
+// list packages them.  A callBinding lists the *inputs* of the callee as the callee's own origin
+// terms name them — a parameter `p4`, or one field of a parameter that is a struct built at the
+// call site, `p4.hash` — each with the origin term (in the caller) of the value the call stores
+// there; fields the literal leaves out are bound to their zero value.  Rules then name the
+// callee's inputs by the caller's value (slotOf("p4") = "the input that receives BuildLogLeaf's
+// chain") and write their patterns over those names, so the same rule decides
+// f(a, b, nil) and f(a, group{x: b}).
+type callBinding struct {
+	call  ssa.CallInstruction
+	slots map[string]string // callee input -> caller origin term
+	err   string            // why the binding is undecided ("" = resolved)
+}
+
+func zeroTerm(t types.Type) string {
+	switch u := t.Underlying().(type) {
+	case *types.Basic:
+		switch {
+		case u.Info()&types.IsString != 0:
+			return `""`
+		case u.Info()&types.IsBoolean != 0:
+			return "false"
+		case u.Info()&types.IsNumeric != 0:
+			return "0"
+		}
+	case *types.Struct, *types.Array:
+		return "zero:" + TypeName(t)
+	}
+	return "nil"
+}
+
+// bindCall resolves the inputs of a statically dispatched call.
+func (r *Run) bindCall(call ssa.CallInstruction) *callBinding {
+	b := &callBinding{call: call, slots: map[string]string{}}
+	c := call.Common()
+	if c.IsInvoke() || c.StaticCallee() == nil {
+		b.err = "not a static call"
+		return b
+	}
+	var read ssa.Instruction                  // where the struct built for the call is read (the load handed over, or the call)
+	before := func(in ssa.Instruction) bool { // in executes before that read on every path to it
+		if in.Block() == read.Block() {
+			return instrIdx(in) < instrIdx(read)
+		}
+		return in.Block().Dominates(read.Block())
+	}
+	// fields of the struct at addr (a local built for this call), as inputs slot.f
+	var fields func(addr ssa.Value, st *types.Struct, slot string, root bool)
+	fields = func(addr ssa.Value, st *types.Struct, slot string, root bool) {
+		byField := map[int][]*ssa.FieldAddr{}
+		for _, ref := range *addr.Referrers() {
+			switch x := ref.(type) {
+			case *ssa.DebugRef:
+			case *ssa.FieldAddr:
+				byField[x.Field] = append(byField[x.Field], x)
+			case *ssa.UnOp:
+				if x.Op != token.MUL { // reads do not change what the call receives
+					b.err = "the struct passed for " + slot + " is used in an unexpected way"
+				}
+			case *ssa.Call, *ssa.Defer, *ssa.Go:
+				if !root || x != ssa.Instruction(call) {
+					b.err = "the struct passed for " + slot + " is shared with another call"
+				}
+			default:
+				b.err = "the struct passed for " + slot + " is not only built field by field"
+			}
+		}
+		for i := 0; i < st.NumFields(); i++ {
+			f := st.Field(i)
+			name := slot + "." + f.Name()
+			var stores []*ssa.Store
+			var nested []*ssa.FieldAddr
+			for _, fa := range byField[i] {
+				for _, ref := range *fa.Referrers() {
+					switch x := ref.(type) {
+					case *ssa.DebugRef:
+					case *ssa.UnOp:
+						if x.Op != token.MUL {
+							b.err = "field " + name + " is used in an unexpected way"
+						}
+					case *ssa.Store:
+						if x.Addr != ssa.Value(fa) {
+							b.err = "the address of " + name + " escapes"
+						}
+						stores = append(stores, x)
+					case *ssa.FieldAddr:
+						if len(nested) == 0 || nested[len(nested)-1] != fa {
+							nested = append(nested, fa)
+						}
+					default:
+						b.err = "field " + name + " is not only stored to before the call"
+					}
+				}
+			}
+			switch {
+			case len(stores) == 1 && len(nested) == 0:
+				if !before(stores[0]) {
+					b.err = "the store to " + name + " does not precede the call on every path"
+				}
+				b.slots[name] = r.D.D(stores[0].Val)
+			case len(stores) == 0 && len(nested) == 0:
+				b.slots[name] = zeroTerm(f.Type())
+			case len(stores) == 0 && len(nested) == 1:
+				if fst, ok := f.Type().Underlying().(*types.Struct); ok {
+					fields(nested[0], fst, name, false)
+				} else {
+					b.err = "field " + name + " is written in pieces"
+				}
+			default:
+				b.err = "field " + name + " is written more than once"
+			}
+		}
+	}
+	for i, a := range c.Args {
+		slot := fmt.Sprintf("p%d", i)
+		b.slots[slot] = r.D.D(a)
+		switch v := a.(type) {
+		case *ssa.Const:
+			if st, ok := v.Type().Underlying().(*types.Struct); ok && v.Value == nil {
+				for j := 0; j < st.NumFields(); j++ {
+					b.slots[slot+"."+st.Field(j).Name()] = zeroTerm(st.Field(j).Type())
+				}
+			}
+		case *ssa.UnOp:
+			al, isAlloc := v.X.(*ssa.Alloc)
+			if v.Op != token.MUL || !isAlloc {
+				continue
+			}
+			if st, ok := al.Type().(*types.Pointer).Elem().Underlying().(*types.Struct); ok && callLiteral(al) {
+				read = v
+				fields(al, st, slot, true)
+			}
+		case *ssa.Alloc:
+			if st, ok := v.Type().(*types.Pointer).Elem().Underlying().(*types.Struct); ok && callLiteral(v) {
+				read = call
+				fields(v, st, slot, true)
+			}
+		}
+	}
+	return b
+}
+
+// callLiteral: the local is a composite literal — never stored to as a whole.
+func callLiteral(al *ssa.Alloc) bool {
+	for _, ref := range *al.Referrers() {
+		if st, ok := ref.(*ssa.Store); ok && (st.Addr == ssa.Value(al) || st.Val == ssa.Value(al)) {
+			return false
+		}
+	}
+	return true
+}
+
+// slotOf names the one input of the callee that receives the caller's value callerTerm
+// (the most specific one: a field of a struct built for the call rather than the struct).
+func (b *callBinding) slotOf(callerTerm string) (string, string) {
+	if b.err != "" {
+		return "", "undecided: " + b.err
+	}
+	var hits []string
+	for _, s := range keysOf(b.slots) {
+		if b.slots[s] == callerTerm {
+			hits = append(hits, s)
+		}
+	}
+	switch len(hits) {
+	case 1:
+		return hits[0], ""
+	case 0:
+		return "", "no input of " + CalleeOf(b.call) + " receives " + callerTerm
+	}
+	return "", fmt.Sprintf("%s is handed to several inputs of %s: %v", callerTerm, CalleeOf(b.call), hits)
+}
+
+// roles resolves named inputs: want maps a role name to the caller's origin term; every role
+// must bind exactly one input.  The result maps role -> callee input; failures are recorded
+// under key+"["+role+"]".
+func (r *Run) roles(b *callBinding, key string, order []string, want map[string]string) (map[string]string, bool) {
+	out := map[string]string{}
+	ok := true
+	for _, role := range order {
+		slot, why := b.slotOf(want[role])
+		if why != "" {
+			ok = false
+			r.Fail(key+"["+role+"]", r.Where(b.call), why)
+			continue
+		}
+		out[role] = slot
+		r.Pass(key+"["+role+"]", r.Where(b.call), fmt.Sprintf("%s of %s receives %s", slot, CalleeOf(b.call), want[role]))
+	}
+	return out, ok
+}
+
+// inputsReadOnly: origin terms read a field of a parameter that lives in memory (a struct
+// parameter whose fields are selected) as `pN.f` wherever it is read; that is the value the
+// caller handed over only if the function never writes into the parameter.  The obligation fails
+// (undecided) when a parameter of fn is written in pieces or its address leaves the function.
+func (r *Run) inputsReadOnly(fn *ssa.Function, key string) bool {
+	why := ""
+	var visit func(addr ssa.Value, what string)
+	visit = func(addr ssa.Value, what string) {
+		for _, ref := range *addr.Referrers() {
+			switch x := ref.(type) {
+			case *ssa.DebugRef:
+			case *ssa.UnOp:
+				if x.Op != token.MUL {
+					why = what + " is used by " + x.Op.String()
+				}
+			case *ssa.FieldAddr:
+				visit(x, what)
+			case *ssa.IndexAddr:
+				visit(x, what)
+			case *ssa.Store:
+				if _, isParam := x.Val.(*ssa.Parameter); !(x.Addr == addr && isParam && x.Block().Index == 0) {
+					why = what + " is written at " + r.Where(x)
+				}
+			default:
+				why = what + " has its address taken at " + r.Where(ref)
+			}
+		}
+	}
+	for i, p := range fn.Params {
+		for _, ref := range *p.Referrers() {
+			if st, ok := ref.(*ssa.Store); ok && st.Val == ssa.Value(p) {
+				if a, ok := st.Addr.(*ssa.Alloc); ok {
+					visit(a, fmt.Sprintf("parameter p%d", i))
+				}
+			}
+		}
+	}
+	return r.Check(key, why == "", r.FnPos(fn), "the inputs of "+FuncName(fn)+" are only read (a field of a parameter reads as the value the caller handed over) "+why)
 }
